@@ -300,7 +300,7 @@ def run(ctx):
     import pyunicorn.core.interacting_networks as IN
     rng = ctx.rng
     quick = ctx.tier == "quick"
-    scale = 4 if quick else 50
+    scale = 8 if quick else 50
     ctx.rule = ("case = (operation, level, input network / partition / distance matrix / tolerance / "
                 "parameters, recorded draw stream); distinct = distinct canonical encodings; "
                 "non-trivial = at least one rewiring / link placement actually happened "
@@ -384,7 +384,7 @@ def run(ctx):
         return (f"{tag} {MODES[mode]} {n} {enc_mat(A0)} {enc_mat(D)} {eps} {enc_vec(deg)} "
                 f"{enc_mat(edges0)} {iterations} {enc_mat(draws)}")
 
-    n_geo = (600 if quick else 8000)
+    n_geo = (900 if quick else 8000)
     for _ in range(n_geo):
         n, A, D, eps, mode = geo_case("kernel")
         A = A.astype(ADJ)
@@ -530,7 +530,7 @@ def run(ctx):
         return True
 
     reqs, impl = [], []
-    for _ in range(200 if quick else 2500):
+    for _ in range(450 if quick else 2500):
         for _try in range(12):
             n, A, D, eps, mode = geo_case("method")
             D = np.maximum(D, D.T)
